@@ -34,7 +34,21 @@ type Inst struct {
 	EngineReplay bool
 }
 
+// WiringFact is an assumption about how the application object is put together (a construction-time fact the harnesses of
+// a property rest on): inside Fn, every call of Callee passes a value of concrete type Want as interface argument Arg.
+// It is read off the SSA of the current source on every run; a mismatch is confirmed by the native probe test Probe
+// (a Go test of package ProbePkg, injected by overlay) before it is reported.
+type WiringFact struct {
+	Fn, Callee string
+	Arg        int
+	Want       string
+	Why        string
+	ProbePkg   string
+	ProbeTest  string
+}
+
 type PropSpec struct {
+	Wiring []WiringFact
 	ID          string
 	Pkgs        []string // packages to load (relative, "./x/...")
 	Quick       []Inst
@@ -197,6 +211,31 @@ func (e *Env) nativeReplay(pkg string, files []string, outDir string) (map[strin
 	return res, out.String(), nil
 }
 
+// runProbe runs the native probe test of a wiring fact against /repo (harness test files injected by overlay).
+func (e *Env) runProbe(wf WiringFact) (string, bool, error) {
+	_, rep, err := gosym.Overlay(e.Repo, filepath.Join(e.Verif, "harness"))
+	if err != nil {
+		return "", false, err
+	}
+	dir := filepath.Join(e.Verif, "out", "probe")
+	os.MkdirAll(dir, 0o755)
+	ob, _ := json.Marshal(map[string]interface{}{"Replace": rep})
+	ovFile := filepath.Join(dir, "overlay.json")
+	os.WriteFile(ovFile, ob, 0o644)
+	cmd := exec.Command("go", "test", "-vet=off", "-count=1", "-overlay", ovFile, "-run", "^"+wf.ProbeTest+"$", "-v", "./"+wf.ProbePkg)
+	cmd.Dir = e.Repo
+	cmd.Env = append(os.Environ(), "GOFLAGS=-mod=mod", "GOPROXY=off", "GOSUMDB=off", "GOTOOLCHAIN=local")
+	outb, runErr := cmd.CombinedOutput()
+	out := string(outb)
+	if strings.Contains(out, "--- FAIL: "+wf.ProbeTest) {
+		return out, true, nil
+	}
+	if strings.Contains(out, "--- PASS: "+wf.ProbeTest) {
+		return out, false, nil
+	}
+	return out, false, fmt.Errorf("probe did not run: %v", runErr)
+}
+
 type instResult struct {
 	Inst Inst
 	Run  *gosym.Run
@@ -281,6 +320,27 @@ func (e *Env) RunProperty(id string) int {
 			}
 		}
 		results = append(results, instResult{in, r})
+	}
+	// ---- wiring facts (assumptions read off the SSA of the current source)
+	wiringBad := []WiringFact{}
+	for _, wf := range spec.Wiring {
+		sites, err := P.CallArgTypes(wf.Fn, wf.Callee, wf.Arg)
+		if err != nil || len(sites) == 0 {
+			problems = append(problems, fmt.Sprintf("wiring fact not established: no call of %s found in %s (%v)", wf.Callee, wf.Fn, err))
+			continue
+		}
+		ok := true
+		for _, st := range sites {
+			if st.Type != wf.Want {
+				ok = false
+				fmt.Printf("[%s] wiring: %s passes %q (%s) to %s argument %d, expected %s\n", id, st.Pos, st.Type, st.Desc, wf.Callee, wf.Arg, wf.Want)
+			}
+		}
+		if ok {
+			fmt.Printf("[%s] wiring: %s -> %s argument %d is %s at %d call site(s)\n", id, wf.Fn, wf.Callee, wf.Arg, wf.Want, len(sites))
+		} else {
+			wiringBad = append(wiringBad, wf)
+		}
 	}
 	// ---- counterexamples and validation traces -> native replay
 	type pending struct {
@@ -430,6 +490,23 @@ func (e *Env) RunProperty(id string) int {
 			}
 		}
 	}
+	for i, wf := range wiringBad {
+		// confirm on the real build: the probe test constructs the application and inspects the object graph
+		f := filepath.Join(outDir, fmt.Sprintf("wiring-%d.json", i+1))
+		b, _ := json.MarshalIndent(map[string]interface{}{"property": id, "kind": "wiring", "fact": wf}, "", " ")
+		os.WriteFile(f, b, 0o644)
+		out, failed, err := e.runProbe(wf)
+		switch {
+		case err != nil:
+			problems = append(problems, fmt.Sprintf("wiring fact violated in the SSA (%s) but the native probe could not run: %v\n%s", wf.Why, err, tail(out, 15)))
+		case failed:
+			violations++
+			vioLines = append(vioLines, fmt.Sprintf("VIOLATION property=%s replay=%s", id, f))
+			fmt.Printf("  wiring violation (confirmed by the native probe %s): %s\n%s\n", wf.ProbeTest, wf.Why, tail(out, 6))
+		default:
+			problems = append(problems, fmt.Sprintf("ENCODING-MISMATCH: wiring fact violated in the SSA (%s) but the native probe passes", wf.Why))
+		}
+	}
 	for _, l := range vioLines {
 		fmt.Println(l)
 	}
@@ -536,7 +613,7 @@ func (e *Env) writeEvidence(id string, spec *PropSpec, results []instResult, see
 	}
 	ev := map[string]interface{}{
 		"property_id": id, "tier": e.Tier, "seed": seed, "level": "model_checking", "coverage": cov,
-		"assumptions": spec.Assumptions, "wall_s": round2(wall.Seconds()), "violations": violations,
+		"assumptions": append(append([]string{}, spec.Assumptions...), wiringNotes(spec)...), "wall_s": round2(wall.Seconds()), "violations": violations,
 	}
 	b, _ := json.MarshalIndent(ev, "", " ")
 	os.MkdirAll(filepath.Join(e.Verif, "evidence"), 0o755)
@@ -558,12 +635,59 @@ func (e *Env) ReplayFile(path string) int {
 		fmt.Fprintln(os.Stderr, err)
 		return 2
 	}
+	// a wiring violation: re-run the native probe
+	var w struct {
+		Kind string
+		Fact WiringFact
+	}
+	if json.Unmarshal(b, &w) == nil && w.Kind == "wiring" {
+		out, failed, err := e.runProbe(w.Fact)
+		fmt.Println(tail(out, 12))
+		if err != nil {
+			fmt.Fprintln(os.Stderr, err)
+			return 2
+		}
+		if failed {
+			fmt.Printf("wiring probe %s fails: %s\n", w.Fact.ProbeTest, w.Fact.Why)
+			return 1
+		}
+		return 0
+	}
 	var c cexFile
 	if err := json.Unmarshal(b, &c); err != nil {
 		fmt.Fprintln(os.Stderr, err)
 		return 2
 	}
 	abs, _ := filepath.Abs(path)
+	// harnesses that redirect concrete dependency functions cannot be compiled natively: re-execute the SSA with the
+	// counterexample's inputs pinned
+	if spec, ok := Specs()[c.Property]; ok {
+		for _, in := range append(append([]Inst{}, spec.Quick...), spec.Thorough...) {
+			if in.Fn != c.Harness || in.Pkg != c.Pkg || !in.EngineReplay {
+				continue
+			}
+			P, err := gosym.Load(e.Repo, filepath.Join(e.Verif, "harness"), spec.Pkgs)
+			if err != nil {
+				fmt.Fprintln(os.Stderr, "LOAD-ERROR:", err)
+				return 2
+			}
+			r, err := gosym.NewRun(P, gosym.HaqqMod+"/"+c.Pkg, c.Harness, c.Params)
+			if err != nil {
+				fmt.Fprintln(os.Stderr, err)
+				return 2
+			}
+			r.Workers, r.SolverKind, r.TimeoutMs, r.MapOrder, r.Pinned = 1, e.Solver, e.TimeoutMs, in.MapOrder, c.Model
+			r.Explore()
+			for _, v := range r.Violations {
+				fmt.Printf("harness %s, concrete re-execution of the SSA: %s: %s\n", c.Harness, v.Kind, v.Msg)
+				if v.Msg == c.Msg {
+					return 1
+				}
+			}
+			fmt.Printf("harness %s, concrete re-execution of the SSA: no violation (path ends %v)\n", c.Harness, r.PathEnds)
+			return 0
+		}
+	}
 	res, log, err := e.nativeReplay(c.Pkg, []string{abs}, filepath.Join(e.Verif, "out", "replay"))
 	if err != nil {
 		fmt.Println(log)
@@ -580,6 +704,14 @@ func (e *Env) ReplayFile(path string) int {
 		return 0
 	}
 	return 1
+}
+
+func wiringNotes(spec *PropSpec) []string {
+	var out []string
+	for _, wf := range spec.Wiring {
+		out = append(out, fmt.Sprintf("wiring fact read off the SSA of the current source on every run (mismatch confirmed by native probe %s): in %s every call of %s passes %s as argument %d - %s", wf.ProbeTest, wf.Fn, wf.Callee, wf.Want, wf.Arg, wf.Why))
+	}
+	return out
 }
 
 func (e *Env) Selftest() int { return selftest(e) }
